@@ -86,6 +86,10 @@ func (m *authenticatedMap[IdentifierType, K, V]) Set(key K, value V) error {
 	if err != nil {
 		return ierrors.Wrap(err, "failed to serialize value")
 	}
+	if valueBytes == nil {
+		// a nil slice is how the trie reports an absent key, so an empty value must be stored as a non-nil empty slice
+		valueBytes = []byte{}
+	}
 
 	keyBytes, err := m.keyToBytes(key)
 	if err != nil {
